@@ -28,7 +28,7 @@ DRIVER_MODULES = ["PsutilModel.Model.C16Gen", "PsutilModel.Spec.C16", "PsutilMod
                   "PsutilModel.Model.C16ActGen", "PsutilModel.Spec.C16Act"]
 NEEDS_EXT = True
 TRUSTED = [
-    "C16 world model: contents are abstracted to version numbers (decoding is C06/C13's business); /proc/<pid>/stat is always readable; a gone process never comes back and a zombie never revives (PID reuse: C01/C02); a zombie's smaps and cmdline are empty files (measured, DESIGN A.8); smaps_rollup does not exist in the modelled world (the documented fallback to smaps is what is exercised)",
+    "C16 world model: contents are abstracted to version numbers (decoding is C06/C13's business); /proc/<pid>/stat is always readable; a gone process never comes back and a zombie never revives (PID reuse: C01/C02); a zombie's smaps and cmdline are empty files (measured, DESIGN A.8); both worlds are run: with smaps_rollup (Meth.alt/eff, round 3) and without it (the documented fallback to smaps)",
     "C16 concurrent models: one object's `_cache` (Model/C16Conc.lean, instantiated for the front-end object with 4 activations and for the platform object with 3, incl. the pre-repair wrapper shapes) and both `_cache` attributes together (Model/C16Conc2.lean: front-end wrapper over platform wrapper, activation/deactivation order from the facts actOrder/deactOrder, repaired wrapper shape only, the re-entrant lock with every thread's stack of open levels: nested blocks and as_dict() = acquire · test · calls · exit are runs of this model; fact lockReentrant); methods reading two sources and several Process objects at once are not steps of these models (several objects: only the lock-order remark that no library code takes a second object's lock while holding one); CPython executes each of LOAD_ATTR / BINARY_SUBSCR / STORE_SUBSCR / STORE_ATTR / DELETE_ATTR atomically under the GIL (free-threaded builds out of scope)",
     "C16 scheduler (harness/props/c16_sched.py): sys.settrace with f_trace_opcodes hands a baton between real threads at the shared-state bytecodes; the schedule space is sampled (quick) or enumerated for one plain call against one enter/exit pair (thorough, one-level programs); for the two-level model the parks of both objects are level-tagged and the schedules are sampled in both tiers (10 families, incl. nested blocks, as_dict() as / inside / against a block, as_dict() in both threads: a thread whose acquire is disabled in the model is simply not granted); in the sequential runs and under this scheduler `Process._lock` is wrapped so that an acquire that would block raises SelfDeadlock instead of hanging the check",
     "C16 record objects (Model/C16Rec.lean, harness/props/c16_rec.py): a kernel record is a line of non-negative integers (position 1 printed as one of the state letters R S D T I, starttime constant within one history, the process alive and stat readable); the dict built by _parse_stat_file is modelled as an association list and a platform method as the list of things it does to the dict object it is handed (translator: subscript / .get / .pop / del / item store of a constant / .clear(); anything else is an unknown token that fails the obligation rcfg_good); _psposix.get_terminal_map is replaced (every device number has a name) so that terminal() can be decoded; cpu_percent() is compared by outcome kind only (its value depends on the clock); create_time() is no route (kept for the object's lifetime); the failing-input oracle of this family is the real method's own answer OUTSIDE any block on a fresh object over the same files (no translator fact involved), the Lean specification/model are compared on top of it",
